@@ -156,7 +156,7 @@ func classifyDeath(run *Run, res *Result) {
 	// did the scenario declare this fail-stop legitimate beforehand?
 	for i := range run.Evs {
 		e := &run.Evs[i]
-		if e.K == journal.KExpect && e.S != "" && strings.Contains(msg, e.S) {
+		if e.K == journal.KExpect && strings.Contains(msg, e.S) { // an empty S declares any deliberate fail-stop legitimate from here on
 			res.DeathKind = "expected"
 		}
 	}
